@@ -234,6 +234,55 @@ def generate(rng, tier):
         lt = s.add("unwind U F ip %s %s S" % (hx(x), regs))
         s.meta[ln] = {"twin": lt}
         out.append(("genwrap-%d" % k, s))
+    # Mach-O: a function whose compact-unwind entry defers to __eh_frame and whose row does not compress. Its step fails
+    # or succeeds with the stack it is given - whatever happened on an earlier visit says nothing about the next (the
+    # error of the DWARF hand-off is a DWARF error whichever format the module has; seeded change C06-14)
+    import machotruth as mt
+    for ai, arch in enumerate(("x86", "a64")):
+        R = ARCH_REGS[arch]
+        s = Script(arch, "may" if ai == 0 else "must")
+        prog = mt.make_program(rng, arch, 4)
+        df = [f for f in prog["funcs"] if f.dwarf]
+        for f in df:
+            f.force_rows = [(0, dict(cfa=("r", R["sp"], 12 if arch == "x86" else 24), fp=("s",), ra=("o", -8)))]
+        base = 0x100000000 + 0x10000 * rng.below(64)
+        mt.module_macho(s, "M", prog, base, 0x100000000, rng)
+        s.add("new U"); s.add("add U M"); s.add("newcache C")
+        s.mem("E", [])
+        s.mem("S", [(0x7000 + 4 * i, base + 0x1000 + 0x10 * (i % 32) + 3) for i in range(128)])
+        for f in df:
+            for j in range(3):
+                a = base + f.start + (1 if arch == "x86" else 4) * rng.range(1, max(1, f.length // (1 if arch == "x86" else 4) - 1))
+                regs = s.regs_x86(a, 0x7000 + 8 * rng.below(8), 0x7100) if arch == "x86" else s.regs_a64(M64, base + 0x1234, 0x7000 + 16 * rng.below(4), 0x7100)
+                for memid in (("E", "S", "E", "S") if j % 2 == 0 else ("S", "E", "S")):
+                    ln = s.add("unwind U C ra %s %s %s" % (hx(a + 1), regs, memid), tag="%s:macho-dwarf-generic:%s" % (arch, memid))
+                    s.add("newcache F")
+                    lt = s.add("unwind U F ra %s %s %s" % (hx(a + 1), regs, memid))
+                    s.meta[ln] = {"twin": lt}
+        out.append(("macho-generic-%s" % arch, s))
+    # two images whose addresses fall into the same slots AND agree in every narrower summary of the address one might
+    # store instead of it: 509 * 2^32 * j bytes apart (same slot, same quotient modulo 2^32), 2^32 * j apart with equal
+    # low halves, 509 * j apart. The entry holds the whole 64-bit address (seeded change C08-12 stored address / 509 in 32 bits).
+    for ai, arch in enumerate(("x86", "a64")):
+        gran = 8 if arch == "x86" else 16
+        for di, dist in enumerate((509 << 32, 509 << 33, 1 << 32, 509 * 0x1000, (509 << 32) + 509)):
+            s = Script(arch, "may" if di % 2 == 0 else "must")
+            lo = 0x10000 + 0x1000 * rng.below(16)
+            fa = [dict(start=0x100, len=0x800, rows=[(0, suites.std_row(arch, "frameless", 2))])]
+            fb = [dict(start=0x100, len=0x800, rows=[(0, suites.std_row(arch, "frameless", 5))])]
+            s.module_dwarf("MA", lo, lo + 0x1000, lo, 0, "eh", fa, rng)
+            s.module_dwarf("MB", lo + dist, lo + dist + 0x1000, lo + dist, 0, "eh", fb, rng)
+            s.mem("S", [(0x7000 + 8 * i, 0x20000 + i) for i in range(64)])
+            s.add("new U"); s.add("add U MA"); s.add("add U MB"); s.add("newcache C")
+            for j in range(6):
+                x = lo + 0x100 + rng.below(0x700)
+                for a in ((x, x + dist, x) if j % 2 == 0 else (x + dist, x, x + dist)):
+                    regs = s.regs_x86(a, 0x7000, 0x7100) if arch == "x86" else s.regs_a64(M64, 0x5555, 0x7000, 0x7100)
+                    ln = s.add("unwind U C ip %s %s S" % (hx(a), regs), tag="%s:far-collision:%d" % (arch, di))
+                    s.add("newcache F")
+                    lt = s.add("unwind U F ip %s %s S" % (hx(a), regs))
+                    s.meta[ln] = {"twin": lt}
+            out.append(("far-collision-%s-%d" % (arch, di), s))
     return out
 
 def judge(script, impl):
